@@ -501,3 +501,12 @@ PROPS['C10'] = {'suites': [{'name': 'decthread', 'quick': 500, 'thorough': 5000}
                  "suite's scripted decoders fail stickily (k-th call and all later ones), for which this is exact",
                  'C10_ring_window_any_pace / gaps-only assume a decoder meeting the contract and no seek / loop commands (seeks deliberately discard the order)',
                  'real-thread oracles use generous bounds (thread gone within 1.5 s; leak declared after 0.4 s)']}
+
+# --- suites shared between properties (a suite serves every property whose clause it exercises) ---
+# C03 speaks of static AND streaming sounds: the streaming life cycle (fades / state steps while the decoder is
+# ahead, starving or failing) is exercised by the C09/C10 suites.
+PROPS["C03"]["suites"] += [{"name": "stream", "quick": 300, "thorough": 3000},
+                           {"name": "decthread", "quick": 300, "thorough": 3000}]
+# C08's "dropping a handle removes the resource at the next callback … a track is removed" clause for tracks inside
+# (possibly paused) track trees is exercised by the mixer's track-life suite.
+PROPS["C08"]["suites"] += [{"name": "mixtrk", "quick": 3000, "thorough": 60000}]
